@@ -8,6 +8,7 @@ used, or unwrap/expect-ed.  Discards (type-resolved, over MIR):
   D-log    the Err payload is read only to be formatted into a log line (log-and-continue)
 Each site is AUDITED (tables/e3_allow.json, keyed by function + idiom + E, with multiplicity and reason) or a finding.
 """
+import re
 from collections import defaultdict
 
 from prog import def_sites, operand_local, operand_place
@@ -71,11 +72,30 @@ def discard_sites(P, reach):
             if body["blocks"][site["bi"]]["cl"]:
                 continue
             name = site["info"]["fn"]
+            # Result implements IntoIterator: flat_map / flatten over a Result-valued closure or iterator silently
+            # drops every Err
+            if name in ("core::iter::traits::iterator::Iterator::flat_map", "core::iter::traits::iterator::Iterator::flatten"):
+                for g in site["info"]["ga"][1:2] if name.endswith("flat_map") else site["info"]["ga"][:1]:
+                    E = result_err_type(g) if name.endswith("flat_map") else None
+                    if E is None and name.endswith("flatten"):
+                        # Self = some iterator whose Item is Result<..>: look at the destination's inner type
+                        mm = re.search(r"(std|core)::result::Result<", g)
+                        if mm:
+                            E = result_err_type(g[mm.start():]) if g[mm.start():].count("<") else None
+                    if E and is_tracked(E, tracked):
+                        out.append({"fn": fn, "idiom": "D-iter:" + name.rsplit("::", 1)[1], "E": E, "line": site["line"], "x": site["term"].get("x", 0), "producer": None})
             if name.startswith("core::result::") and name.rsplit("::", 1)[1] in DISCARD_METHODS:
                 ga = site["info"]["ga"]
                 if len(ga) >= 2 and is_tracked(ga[1], tracked):
                     out.append({"fn": fn, "idiom": "D-call:" + name.rsplit("::", 1)[1], "E": ga[1], "line": site["line"], "x": site["term"].get("x", 0),
                                 "producer": producer_of(P, body, site["term"]["a"][0])})
+        for site in P.iter_sites(fn):
+            if site["kind"] == "fnref" and site["info"]:
+                name = site["info"]["fn"]
+                if name.startswith("core::result::") and name.rsplit("::", 1)[1] in ("ok", "unwrap_or_default", "is_ok", "is_err"):
+                    ga = site["info"]["ga"]
+                    if len(ga) >= 2 and is_tracked(ga[1], tracked):
+                        out.append({"fn": fn, "idiom": "D-call:" + name.rsplit("::", 1)[1] + "(fn value)", "E": ga[1], "line": site["line"], "x": 0, "producer": None})
         # ---- D-drop / D-match: locals defined by calls returning Result<_, tracked>
         uses = None
         for bi, blk in enumerate(body["blocks"]):
